@@ -28,6 +28,21 @@ def case_of(w, sc):
     idx = {t: i for i, t in enumerate(tags)}
     vidx = {v: i for i, v in enumerate(vals)}
     tnum = {t: i + 1 for i, t in enumerate(w.targets)}
+    tnum['__all__'] = 0
+    is_an = [k == 'analysis' for k in kinds]
+    avals = [vidx[f'{tag}.sv.{vn}'] for tag, a, an in zip(tags, algs, is_an) if an for vn in a['values']]
+
+    def cells(x, u):
+        """Reprocess.readCells: per declared input (graph order), the targets it is read at"""
+        out = []
+        for v in consumes[x]:
+            if v in avals:
+                out.append((v, 0))
+            elif is_an[x]:
+                out.extend((v, i + 1) for i in range(len(w.targets)))
+            else:
+                out.append((v, u))
+        return out
     outs = []
     for tag, a in zip(tags, algs):
         outs.append([vidx[f'{tag}.sv.{vn}'] for vn in a['values']])
@@ -50,9 +65,15 @@ def case_of(w, sc):
             ops.append(['poke', idx[op[1]], tnum[op[2]], op[3]])
         elif k == 'read':
             o['epoch'] = ob['epoch']
-            o['ins'] = {vidx[f'{st}.sv.{vn}']: cid(c) for st, vn, c in ob['ins']}
-            # the contents the real Task.do loaded, in the order of the declared inputs (graph order)
-            ops.append(['read', idx[op[1]], tnum[op[2]], [o['ins'].get(v, 0) for v in consumes[idx[op[1]]]]])
+            x, u = idx[op[1]], tnum[op[2]]
+            if is_an[x]:   # (source tag, value, target, content): what the real Aspect held
+                o['ins'] = {(vidx[f'{st}.sv.{vn}'], tnum[tn]): cid(c) for st, vn, tn, c in ob['ins']}
+            else:          # (source tag, value, content): what the real Task.do loaded
+                o['ins'] = {(vidx[f'{st}.sv.{vn}'], 0 if vidx[f'{st}.sv.{vn}'] in avals else u): cid(c)
+                            for st, vn, c in ob['ins']}
+            o['cells'] = cells(x, u)
+            # cells without data (nothing stored yet for that target) hold no content
+            ops.append(['read', x, u, [o['ins'].get(c, 0) for c in o['cells']]])
         elif k == 'write':
             ops.append(['write', idx[op[1]], tnum[op[2]], [cid(c) for c in op[3]]])
             o['new'] = sorted(vidx['.'.join(n.split('.')[2:])] for n in ob['new'])
@@ -60,16 +81,17 @@ def case_of(w, sc):
             ops.append(['reply', idx[op[1]], tnum[op[2]], op[3]])
         elif k == 'check':
             ops.append(['check'])
+            rows = list(w.targets) + ['__all__']
             o['stored'] = [[cid(ob['stored'].get((t, '.'.join(v.split('.')[:2]), v.split('.')[3]))) for v in vals]
-                           for t in w.targets]
+                           for t in rows]
             o['want'] = [[cid(ob['want'].get((t, '.'.join(v.split('.')[:2]), v.split('.')[3]))) for v in vals]
-                         for t in w.targets]
+                         for t in rows]
         else:
             raise ValueError(op)
         o['op'] = ops[-1]
         obs.append(o)
     graph = [kinds, children, desc, ancestry, consumes, fb, levels, ranks]
-    line = common.sx(['repro', 'run', len(tags), graph, [tnum[t] for t in w.targets], outs, ops])
+    line = common.sx(['repro', 'run', len(tags), graph, [tnum[t] for t in w.targets], outs, avals, ops])
     return {'line': line, 'obs': obs, 'tags': tags, 'targets': list(w.targets), 'consumes': consumes,
             'scenario': sc, 'outside': w.outside}
 
@@ -102,18 +124,18 @@ def compare(res, case, out):
                 mism = ('scheduler state', ms, io['snap'])
         elif kind == 'read':
             x = io['op'][1]
-            if sorted(io['ins']) != sorted(case['consumes'][x]):
-                mism = ('the inputs the real unit loaded are not its declared inputs', sorted(case['consumes'][x]),
-                        sorted(io['ins']))
+            if not set(io['ins']) <= set(io['cells']):
+                mism = ('the real unit loaded something that is not a declared input at a target it reads',
+                        sorted(io['cells']), sorted(io['ins']))
             elif mo[1] != 'T' and not premise:
                 # the load hypothesis rests on "changed => reported new"; once a changed value had content
                 # stored before (premise of the clause not met) the clause and its hypotheses do not apply
                 res.count('model:load-hypothesis-fails-outside-the-premise')
             elif mo[1] != 'T':
-                latest = {v: int(c) for v, c in zip(case['consumes'][x], mo[4])}
+                latest = {str(c): int(k) for c, k in zip(io['cells'], mo[4])}
                 mism = ('hypothesis WOk(read) fails on the real code: the unit is not one the model has in flight, '
                         'or its load found an older version of an input although it is not pending again',
-                        {'latest stored': latest}, {'loaded': io['ins']})
+                        {'latest stored': latest}, {'loaded': {str(c): k for c, k in io['ins'].items()}})
             elif io['epoch'] is not None and int(mo[3]) != io['epoch']:
                 mism = ('source data', int(mo[3]), io['epoch'])
             if mo[2] != 'T':
